@@ -54,10 +54,10 @@ def run(ctx):
                         "-reps", 1 if quick else 3, "-workers", V.NCPU])
     ctx.say("cells: %d emitted, %d executed (%d distinct; %d proxy, %d auth), upstream reached in %d" % (
         n, s["executed"], s["distinct"], s["proxy_cells"], s["auth_cells"], s["upstream_reached"]))
-    missing = [a for a in NEED if s["antecedent_hits"].get(a, 0) == 0]
-    if missing or s["auth_cells"] == 0:
-        raise V.Machinery("vacuous: no executed cell reaches the antecedent of %s" % (missing or "AuthHeaders"))
     lines = validate(ctx, obs, "cells")
+    missing = [a for a in NEED if s["antecedent_hits"].get(a, 0) == 0]
+    if (missing or s["auth_cells"] == 0) and not ctx.violations:
+        raise V.Machinery("vacuous: no executed cell reaches the antecedent of %s" % (missing or "AuthHeaders"))
     nontrivial = 0
     for l in lines:
         d = json.loads(l)
